@@ -1121,6 +1121,10 @@ def check_history(ctx, ops, n, label):
                         inp = {"list": [inp["scalar"]]} if "scalar" in inp else {"scalar": jother("ndarray")}
                 cl = None if is_S else classify(inp)
                 if out.get("err") == "TypeError":
+                    if len(st["props"]) != len(prev["props"]) or len(st["secs"]) != len(prev["secs"]):
+                        fail("a refused (TypeError) call left a new entity behind", k,
+                             [from_cps(p["name"]) for p in st["props"]], [from_cps(p["name"]) for p in prev["props"]],
+                             "Section.create_property")
                     for pid, p in before.items():
                         if pid not in after or after[pid]["vals"] != p["vals"]:
                             fail("a type error changed stored values", k, after.get(pid, {}).get("vals"), p["vals"],
@@ -1259,6 +1263,11 @@ def dict_checks(im, st, ops, k, label):
 
 
 ORACLE_FIXED = [
+    # repaired in /repo (fix: create_property from a numpy array whose dtype differs ...): used to leave 'p' = (0, 0)
+    ("create-from-int32-array", [["create", cps("p"), {"nd": {"dt": "int32", "shape": [2], "data": [{"i": "1"}, {"i": "2"}]}}],
+                                 ["create", cps("q"), {"nd": {"dt": "ustr", "shape": [1], "data": [{"s": cps("x")}]}}],
+                                 ["create", cps("r"), {"nd": {"dt": "float32", "shape": [1], "data": [{"f": "1065353216"}]}}],
+                                 ["items"]]),
     ("uuid-shaped-name", [["setitem", cps(UUID_NAME), {"scalar": jint(1)}], ["len"]]),
     ("uuid-shaped-create", [["create", cps("01234567-89ab-cdef-0123-456789abcdef"), {"list": [jstr("x")]}], ["items"]]),
 ]
